@@ -858,3 +858,44 @@ def run_in_child(fn):
     if kind == 'error':
         raise RuntimeError('child process failed: %s' % val)
     return val
+
+
+def run_in_child_timed(fn, limit_s):
+    """Like run_in_child, but gives up after limit_s seconds: returns ('timeout', None) after killing the child,
+    else ('ok', result) or ('error', text)."""
+    import os
+    import pickle
+    import select
+    import signal
+    import time as _time
+    r, w = os.pipe()
+    pid = os.fork()
+    if pid == 0:
+        os.close(r)
+        try:
+            payload = pickle.dumps(('ok', fn()))
+        except BaseException as ex:     # noqa
+            payload = pickle.dumps(('error', '%s: %s' % (type(ex).__name__, ex)))
+        with os.fdopen(w, 'wb') as f:
+            f.write(payload)
+        os._exit(0)
+    os.close(w)
+    data = b''
+    end = _time.time() + limit_s
+    with os.fdopen(r, 'rb', buffering=0) as f:
+        while True:
+            left = end - _time.time()
+            if left <= 0:
+                os.kill(pid, signal.SIGKILL)
+                os.waitpid(pid, 0)
+                return 'timeout', None
+            ready, _, _ = select.select([f], [], [], min(left, 0.5))
+            if ready:
+                chunk = f.read(65536)
+                if not chunk:
+                    break
+                data += chunk
+    os.waitpid(pid, 0)
+    kind, val = pickle.loads(data) if data else ('error', 'child died')
+    return kind, val
+
